@@ -7,7 +7,7 @@
    (thread, pool choice); [disciplined] is the decidable static discipline. *)
 From Coq Require Import String List Bool Arith NArith.
 Import ListNotations.
-From ACH Require Import Pool PoolFacts PoolDisc PoolTable C19Obl.
+From ACH Require Import Pool PoolFacts PoolDisc PoolTable OptsWrites C19Obl.
 
 (* after every schedule, every thread is exactly where its solo run (private buffers,
    private copy of the tables) is after the same number of its own steps *)
@@ -119,3 +119,9 @@ Theorem C19_global_write_refuted :
   loc (th (run sched_lazy (ginit (two lazy_init lookup) (fun _ => []) [] 0)) 1) = [1]%N /\
   sloc (solo_run (count 1 sched_lazy) (sinit lookup [] [])) = []%N.
 Proof. exact global_write_interferes. Qed.
+
+(* the options a caller shares between files are read-only for the library (regenerated source table: no assignment
+   to a field of a ValidateOpts that is not a fresh local of the assigning function; the struct was found) *)
+Theorem C19_options_read_only : opts_param_writes = [] /\ Nat.ltb 0 validate_opts_fields = true.
+Proof. exact opts_read_only. Qed.
+Print Assumptions C19_options_read_only.
